@@ -22,7 +22,7 @@ func mkSym(F *smt.Factory, name string, n int) *Str {
 	return &Str{s: s}
 }
 
-const alphabet = "a&<>\"';#lt gmpA\n\t{}|.=!x/<>\"\""
+const alphabet = "a&<>\"';#lt gmpA\n\t{}|.=!x/<>\"\"&;34amp"
 
 func randModel(r *rand.Rand, name string, n int) smt.Model {
 	m := smt.Model{}
@@ -100,6 +100,10 @@ func TestStrLibAgainstNative(t *testing.T) {
 		strOp{"lower", L.toLower(s), strings.ToLower},
 		strOp{"upper", L.toUpper(s), strings.ToUpper},
 		strOp{"replaceNL", L.replaceByte(s, '\n', " "), func(x string) string { return strings.ReplaceAll(x, "\n", " ") }},
+		strOp{"unescapeRefs", L.unescapeRefs(s, basicRefs), func(x string) string {
+			r := strings.NewReplacer("&amp;", "&", "&lt;", "<", "&gt;", ">", "&quot;", "\"", "&#34;", "\"", "&#39;", "'", "&#13;", "\r")
+			return r.Replace(x)
+		}},
 		strOp{"collapse", L.collapseSpaces(s), func(x string) string { return spaces.ReplaceAllString(x, " ") }},
 		strOp{"slice1_4", L.slice(s, F.BV(1, posW), F.BV(4, posW)), func(x string) string {
 			lo, hi := 1, 4
